@@ -13,63 +13,93 @@ From GMS Require Import Sys.IndexedSet Sys.IndexedSetProofs.
 Section C47.
   Context {V K KId R : Type}.
   Variables (keq : K -> K -> bool) (kideq : KId -> KId -> bool) (equals : V -> V -> bool)
-            (keyfn : KId -> V -> K) (from_row : R -> V) (update_with_row : R -> V -> V) (keyers : list KId).
-  Local Notation run := (exec keq kideq equals keyfn from_row update_with_row keyers (is_init keyers)).
-  Local Notation spec := (sexec keq kideq equals keyfn from_row update_with_row keyers).
-  Local Notation spec_set := (sexec_set keq kideq equals keyfn from_row update_with_row keyers).
-  Local Notation guarded := (no_dup_put keq kideq equals keyfn from_row update_with_row keyers).
+            (keyfn : KId -> V -> K) (from_row : R -> V) (update_with_row : R -> V -> V)
+            (add_row delete_row : R -> V -> V) (row_view : V -> V) (rows_view : V -> list V) (keyers : list KId).
+  Local Notation run := (exec keq kideq equals keyfn from_row update_with_row add_row delete_row row_view rows_view keyers (is_init keyers)).
+  Local Notation spec := (sexec keq kideq equals keyfn from_row update_with_row add_row delete_row row_view rows_view keyers).
+  Local Notation spec_set := (sexec_set keq kideq equals keyfn from_row update_with_row add_row delete_row row_view rows_view keyers).
+  Local Notation guarded := (no_dup_put keq kideq equals keyfn from_row update_with_row add_row delete_row row_view rows_view keyers).
 
   (* every observation of every operation sequence (Put, Get, GetMany, Remove, RemoveMany, Count, Clear,
-     VisitEntries, editor Insert/Delete/Update) is the one the bag specification gives — exactly, in insertion
+     VisitEntries, editor Insert/Delete/Update, MultiInsert/MultiDelete/MultiUpdate, Truncate, PartitionRows via
+     ToRows / MultiToRows) is the one the bag specification gives — exactly, in insertion
      order; VisitEntries up to permutation (Go map iteration order) *)
   Theorem C47_refinement :
     contract keq kideq equals keyfn keyers -> forall ops, keyers <> [] ->
     Forall2 obs_equiv (snd (run ops)) (snd (spec [] ops)).
-  Proof. exact (refinement keq kideq equals keyfn from_row update_with_row keyers). Qed.
+  Proof. exact (refinement keq kideq equals keyfn from_row update_with_row add_row delete_row row_view rows_view keyers). Qed.
 
   (* for every keyer and every key: exactly the elements currently stored under that key *)
   Theorem C47_get_many_exact :
     contract keq kideq equals keyfn keyers -> forall ops kid k, keyers <> [] ->
     is_get_many keq kideq keyers (fst (run ops)) kid k =
     if existsb (fun x => kideq x kid) keyers then filter (has_key keq keyfn kid k) (fst (spec [] ops)) else [].
-  Proof. exact (get_many_exact keq kideq equals keyfn from_row update_with_row keyers). Qed.
+  Proof. exact (get_many_exact keq kideq equals keyfn from_row update_with_row add_row delete_row row_view rows_view keyers). Qed.
 
   (* every index holds the same bag of elements *)
   Theorem C47_indexes_agree :
     contract keq kideq equals keyfn keyers -> forall ops m, keyers <> [] ->
     In m (fst (run ops)) -> Permutation (mm_entries m) (fst (spec [] ops)).
-  Proof. exact (indexes_agree keq kideq equals keyfn from_row update_with_row keyers). Qed.
+  Proof. exact (indexes_agree keq kideq equals keyfn from_row update_with_row add_row delete_row row_view rows_view keyers). Qed.
 
   Theorem C47_count_is_bag_size :
     contract keq kideq equals keyfn keyers -> forall ops, keyers <> [] ->
     length (fst (run ops)) = length keyers /\ is_count (fst (run ops)) = length (fst (spec [] ops)).
-  Proof. exact (index_count keq kideq equals keyfn from_row update_with_row keyers). Qed.
+  Proof. exact (index_count keq kideq equals keyfn from_row update_with_row add_row delete_row row_view rows_view keyers). Qed.
 
   (* NOT hidden: the container is a bag.  Put of an element that is already stored is counted again *)
   Theorem C47_put_duplicate_counts_twice :
     contract keq kideq equals keyfn keyers -> forall ops v, keyers <> [] ->
     is_count (fst (run (ops ++ [OpPut v; OpPut v]))) = is_count (fst (run ops)) + 2.
-  Proof. exact (put_duplicate_counts_twice keq kideq equals keyfn from_row update_with_row keyers). Qed.
+  Proof. exact (put_duplicate_counts_twice keq kideq equals keyfn from_row update_with_row add_row delete_row row_view rows_view keyers). Qed.
 
   (* set semantics: if no Put adds an Equals-duplicate, the bag specification coincides with the specification in
      which Put is set insertion ... *)
   Theorem C47_set_semantics_without_duplicate_put :
     forall ops c, guarded c ops -> spec_set c ops = spec c ops.
-  Proof. exact (set_semantics keq kideq equals keyfn from_row update_with_row keyers). Qed.
+  Proof. exact (set_semantics keq kideq equals keyfn from_row update_with_row add_row delete_row row_view rows_view keyers). Qed.
 
   (* ... and no two stored elements are Equals (any ops except the editor's Update) *)
   Theorem C47_no_equal_elements_without_duplicate_put :
     contract keq kideq equals keyfn keyers -> forall ops c, forallb no_update ops = true ->
     uniq equals c -> guarded c ops -> uniq equals (fst (spec c ops)).
-  Proof. exact (uniq_preserved keq kideq equals keyfn from_row update_with_row keyers). Qed.
+  Proof. exact (uniq_preserved keq kideq equals keyfn from_row update_with_row add_row delete_row row_view rows_view keyers). Qed.
 
   (* editor Insert (checks) and Delete keep the first keyer a primary key, as long as nobody Puts directly and no
      Update runs (see C47_update_can_duplicate_primary_key) *)
   Theorem C47_insert_delete_keep_primary_key :
     forall ops c, forallb pk_safe_op ops = true ->
     pk_uniq keq keyfn keyers c -> pk_uniq keq keyfn keyers (fst (spec c ops)).
-  Proof. exact (pk_uniq_preserved keq kideq equals keyfn from_row update_with_row keyers). Qed.
+  Proof. exact (pk_uniq_preserved keq kideq equals keyfn from_row update_with_row add_row delete_row row_view rows_view keyers). Qed.
+
+  (* locking wrappers as atomic steps: for ANY interleaving of whole operations of any number of sessions
+     (OperationLockingTableEditor) and of whole statements (StatementLockingTableEditor) the history refines the bag *)
+  Theorem C47_locked_operations_any_interleaving :
+    contract keq kideq equals keyfn keyers -> forall (sessions : list (list op)) sched, keyers <> [] ->
+    Forall2 obs_equiv (snd (run (merge sched sessions))) (snd (spec [] (merge sched sessions))).
+  Proof. exact (locked_ops_any_interleaving keq kideq equals keyfn from_row update_with_row add_row delete_row row_view rows_view keyers). Qed.
+
+  Theorem C47_locked_statements_any_interleaving :
+    contract keq kideq equals keyfn keyers -> forall (sessions : list (list (list op))) sched, keyers <> [] ->
+    Forall2 obs_equiv (snd (run (concat (merge sched sessions)))) (snd (spec [] (concat (merge sched sessions)))).
+  Proof. exact (locked_statements_any_interleaving keq kideq equals keyfn from_row update_with_row add_row delete_row row_view rows_view keyers). Qed.
 End C47.
+Print Assumptions C47_locked_operations_any_interleaving.
+Print Assumptions C47_locked_statements_any_interleaving.
+
+(* a merged history is made of the sessions' units (nothing invented, nothing duplicated) *)
+Theorem C47_merge_takes_units_of_the_sessions :
+  forall (A : Type) sched (ths : list (list A)), exists rest, Permutation (merge sched ths ++ concat rest) (concat ths).
+Proof. exact (@merge_sub). Qed.
+Print Assumptions C47_merge_takes_units_of_the_sessions.
+
+(* MultiUpdate = MultiDelete then MultiInsert is NOT atomic: the deletion stays when the insertion fails *)
+Example C47_multi_update_partial_effect :
+  exec4 3 [1; 2]%N [OpPut (1, 1, 3, 7); OpMUpdate (1, 9, 1) (2, 9, 1); OpMRows; OpMInsert (1, 9, 1); OpMRows; OpTruncate; OpCount]%N
+  = ([[]; []],
+     [ONone; OErr true; OBag [(1, 1, 2, 0)]; OErr false; OBag [(1, 1, 1, 0); (1, 1, 2, 0)]; OCount 1; OCount 0])%N.
+Proof. exact multi_update_partial_effect. Qed.
+Print Assumptions C47_multi_update_partial_effect.
 Print Assumptions C47_refinement.
 Print Assumptions C47_get_many_exact.
 Print Assumptions C47_indexes_agree.
